@@ -17,7 +17,9 @@ groups:
                                             nx2 = IsNotFound+IsTemporary, temp2 = IsTimeout, other2 = a DNSError that is neither)
        txt:  j | x | r,<adkim>,<aspf>,<p>,<sp|->,<pct|->      each followed by #<hex of the raw text> (replay only)
   I … | H …                                 generator intent and raw header: for the Go monitor and replay, ignored here
-  R d <val> <dom> | R s <val> <from> <helo> | R o
+  R d <val> <dom> [<ident>] | R s <val> <from> <helo> | R o [<k>]       (k: which other method, harness only)
+                                            ident: the signing identity (i= / header.i) of the DKIM result as a string token
+                                            (`=` alone: none); it needs no library rows - the model never consults it
   B <n|->{3} q<k> smtp|lmtp                 (reply only) pipeline run with a timing: number of R results the check of
                                             the global / source / recipient block reports (in order; `-`: no check
                                             in that block), q<k>: block of the quarantining check, smtp|lmtp: Body or
@@ -100,9 +102,11 @@ def parse (gs : List (List String)) : Option Tabs :=
     | ["D", d, "other"] => do pure { T with dns := T.dns ++ [(← dom? d, .other)] }
     | ["D", d, "other2"] => do pure { T with dns := T.dns ++ [(← dom? d, .other)] }
     | "D" :: d :: "ok" :: txts => do pure { T with dns := T.dns ++ [(← dom? d, .ok (← txts.mapM txt?))] }
-    | ["R", "d", v, d] => do pure { T with res := .dkim (← val? v) (← dom? d) :: T.res }
+    | ["R", "d", v, d] => do pure { T with res := .dkim (← val? v) (← dom? d) [] :: T.res }
+    | ["R", "d", v, d, i] => do pure { T with res := .dkim (← val? v) (← dom? d) (← dom? i) :: T.res }
     | ["R", "s", v, f, h] => do pure { T with res := .spf (← val? v) (← dom? f) (← dom? h) :: T.res }
     | ["R", "o"] => some { T with res := .other :: T.res }
+    | ["R", "o", k] => do let _ ← k.toNat?; pure { T with res := .other :: T.res }
     | ["B", a, b, c, q, how] =>
       if !(q.startsWith "q") || (how != "smtp" && how != "lmtp") then none else do
       let cnt (x : String) : Option (Option Nat) := if x == "-" then some none else x.toNat?.map some
@@ -156,7 +160,7 @@ def splitBlocks : List (Option Nat) → List AuthRes → Option (List (List Auth
     if rs.length < n then none else (splitBlocks bs (rs.drop n)).map (rs.take n :: ·)
 
 def authDoms : AuthRes → List Str
-  | .dkim _ d => [d]
+  | .dkim _ d _ => [d]
   | .spf _ f h => [f, h]
   | .other => []
 
